@@ -43,6 +43,39 @@ def entry_emit_check(ctx, res, rule):
         n += 1
         seq = []
         evs = [e for e in p.events if e.kind == "call"]
+        # single-byte header writes through a pointer taken from the write cursor: `hdr = ubuf_ptr(b->buf); hdr[i] = v`
+        # are varint32 emits of v provided the path proves v < 128
+        allv = [e for e in p.events if e.kind != "branch"]
+        ptrs = {}
+        bytes_ = []
+        for e in allv:
+            if e.kind == "store" and e.a.isidentifier() and APE.vstr(e.b).startswith("ubuf_ptr(b->buf"):
+                ptrs[e.a] = True
+            m_ = re.match(r"^(\w+)\[#(\d+)\]$", e.a) if e.kind == "store" else None
+            if m_ and m_.group(1) in ptrs and e.node["k"] == "BinaryOperator":
+                rhs = strip(e.node["kids"][1])
+                rname = canon(rhs)
+                # a literal below 128 is fine; a variable must be named in a `< 128` test on this path
+                # (concrete values of loop counters are artefacts of bounded unrolling and prove nothing)
+                small = rhs["k"] == "IntegerLiteral" and 0 <= rhs.get("val", 999) < 128
+                if not small:
+                    for key_, c_ in p.cons.items():
+                        if key_[1] == "#128" and c_ <= frozenset((LT,)) and key_ in p.atoms:
+                            lhsn = p.atoms[key_][0]
+                            ops = [o for o in re.split(r"[|()*]+", canon(lhsn)) if o]
+                            if rname in ops:
+                                small = True
+                bytes_.append((int(m_.group(2)), canon(e.node["kids"][1]), small, e))
+        if bytes_:
+            offs = [b_[0] for b_ in bytes_]
+            adv3 = [e for e in evs if e.a == "ubuf_advance" and canon(call_args(e.node)[0]) == "b->buf" and e.b[1] == ("c", len(bytes_))]
+            notsmall = [b_[1] for b_ in bytes_ if not b_[2]]
+            res.check(not notsmall and offs == list(range(len(bytes_))) and len(adv3) >= 1, rule, site(f, "single-byte-header"),
+                      "a header value written as one raw byte is proven < 128 on that path (a varint below 128 is its own byte)",
+                      "header value(s) %s are written as a single raw byte although the path does not establish them to be < 128: larger values are truncated "
+                      "and the entry decodes to a different key" % notsmall, f.loc(bytes_[0][3].node), p.describe(f))
+            for o_, c_, sm_, e_ in bytes_:
+                seq.append(("varint32", c_, None, "ubuf_ptr(b->buf)", True))
         for i, e in enumerate(evs):
             if e.a in ("mtbl_varint_encode32", "mtbl_varint_encode64", "mtbl_fixed_encode32", "mtbl_fixed_encode64", "memcpy"):
                 a = call_args(e.node)
@@ -68,7 +101,8 @@ def entry_emit_check(ctx, res, rule):
         if rs:
             m = re.search(r"#(\d+)", canon(call_args(rs[0].node)[1]))
             budget = int(m.group(1)) if m else None
-        res.check(bool(rs) and budget is not None and budget >= 15 and evs.index(rs[0]) < min(i for i, e in enumerate(evs) if e.a.startswith("mtbl_varint_encode")),
+        first_emit = min([i for i, e in enumerate(evs) if e.a.startswith("mtbl_varint_encode") or e.a == "memcpy"] or [len(evs)])
+        res.check(bool(rs) and budget is not None and budget >= 15 and evs.index(rs[0]) < first_emit,
                   rule, site(f, "reserve"), "space for 15 header bytes + suffix + value reserved before writing",
                   "buffer space reserved before the entry is written is %s" % (canon(call_args(rs[0].node)[1]) if rs else None), f.loc(f.body))
     if n == 0:
